@@ -7,6 +7,9 @@
 //	           spellings "rpc_policy", "rpcpolicy", "RPCPolicy")
 //	E[entries] cfg.ApplyEnvVars() with CLUSTER_RPCPOLICY / CLUSTER_RPC_POLICY set to "Name:<int>,…" (envconfig's map syntax)
 //	F          what cmd/ipfs-cluster-follow does after loading: cfg.RPCPolicy["Cluster.RepoGCLocal"] = RPCClosed
+//	H[entries] (round 8b) the daemon's path through package cmdutils: a FRESH Config loaded by NewLoadedConfigHelper from a
+//	           service.json on disk (written by a ConfigHelper; its cluster section also carries the entries under the
+//	           three key spellings), then SetupTracing; the case goes on with Configs().Cluster
 //
 // Output `C07 pol <steps> => <nil | differences of cfg.RPCPolicy against the shipped table> <Validate ok|err>`, and, when the
 // configuration validates, `C07 polrpc <steps> <t|u> <Svc.Method> => …`: the real newRPCServer built from THAT Config
@@ -20,11 +23,13 @@ import (
 	"encoding/json"
 	"fmt"
 	"os"
+	"path/filepath"
 	"sort"
 	"strconv"
 	"strings"
 
 	ipfscluster "github.com/ipfs/ipfs-cluster"
+	"github.com/ipfs/ipfs-cluster/cmdutils"
 
 	"verifharness/common"
 )
@@ -70,7 +75,7 @@ func parsePsteps(tok string) ([]pstep, error) {
 			if len(p) != 1 {
 				return nil, fmt.Errorf("step %q", p)
 			}
-		case 'L', 'E':
+		case 'L', 'E', 'H':
 			if len(p) > 1 {
 				for _, e := range strings.Split(p[1:], ",") {
 					kv := strings.Split(e, ":")
@@ -186,12 +191,89 @@ func buildPolicyConfig(steps []pstep) (*ipfscluster.Config, []string) {
 				cfg.RPCPolicy["Cluster.RepoGCLocal"] = ipfscluster.RPCClosed
 				return nil
 			})
+		case 'H':
+			var loaded *ipfscluster.Config
+			err = guard(func() error {
+				var e error
+				loaded, e = daemonConfig(s.entries)
+				return e
+			})
+			if loaded != nil {
+				cfg = loaded // what the daemon hands to NewCluster: a fresh Config, loaded by the helper
+			}
 		}
 		if err != nil {
 			notes = append(notes, string(s.kind)+": "+err.Error())
 		}
 	}
 	return cfg, notes
+}
+
+// daemonConfig is the configuration path of ipfs-cluster-service / ipfs-cluster-follow (cmdutils): a service.json and an
+// identity.json written by a ConfigHelper (Manager.Default + SaveJSON), the cluster section of the file extended by the
+// injected policy objects, then NewLoadedConfigHelper (config.Manager.LoadJSONFileAndEnv: LoadJSON + ApplyEnvVars of
+// every registered component) and SetupTracing; the daemon passes Configs().Cluster to NewCluster.
+func daemonConfig(entries []pentry) (*ipfscluster.Config, error) {
+	base := os.Getenv("VERIF_SCRATCH")
+	if base == "" {
+		base = os.TempDir()
+	}
+	dir, err := os.MkdirTemp(base, "c07-helper-")
+	if err != nil {
+		return nil, err
+	}
+	defer os.RemoveAll(dir)
+	cfgPath, idPath := filepath.Join(dir, "service.json"), filepath.Join(dir, "identity.json")
+	w := cmdutils.NewConfigHelper(cfgPath, idPath, "crdt", "leveldb")
+	defer w.Manager().Shutdown()
+	if err := w.Manager().Default(); err != nil {
+		return nil, err
+	}
+	if err := w.Identity().Default(); err != nil {
+		return nil, err
+	}
+	if err := w.SaveConfigToDisk(); err != nil {
+		return nil, err
+	}
+	if err := w.SaveIdentityToDisk(); err != nil {
+		return nil, err
+	}
+	if len(entries) > 0 {
+		raw, err := os.ReadFile(cfgPath)
+		if err != nil {
+			return nil, err
+		}
+		m := map[string]interface{}{}
+		if err := json.Unmarshal(raw, &m); err != nil {
+			return nil, err
+		}
+		sec, ok := m["cluster"].(map[string]interface{})
+		if !ok {
+			return nil, fmt.Errorf("service.json without a cluster section")
+		}
+		obj := map[string]int{}
+		for _, e := range entries {
+			obj[e.key] = e.val
+		}
+		for _, k := range injectedKeys {
+			sec[k] = obj
+			m[k] = obj // and at the top level, next to the sections
+		}
+		raw, err = json.MarshalIndent(m, "", "  ")
+		if err != nil {
+			return nil, err
+		}
+		if err := os.WriteFile(cfgPath, raw, 0600); err != nil {
+			return nil, err
+		}
+	}
+	ch, err := cmdutils.NewLoadedConfigHelper(cfgPath, idPath)
+	if err != nil {
+		return nil, err
+	}
+	defer ch.Manager().Shutdown()
+	ch.SetupTracing(false)
+	return ch.Configs().Cluster, nil
 }
 
 func policyDiff(t map[string]ipfscluster.RPCEndpointType) string {
@@ -272,6 +354,7 @@ func (w *world) runPolCase(out *common.Out, steps []pstep, withRPC bool) {
 
 var polBoundary = []string{
 	"D", "L", "D/L", "D/E", "D/L/E/F", "L/F", "-", "E", "F", "D/F/D", "F/D",
+	"H", "HCluster.Pin:2", "H/F", "D/F/H", "HCluster.RepoGCLocal:2/F/HConsensus.LogPin:2,Cluster.Pins:1",
 	"D/LCluster.Pin:2", "LCluster.Pin:2,IPFSConnector.Pin:1", "D/ECluster.Pin:2", "L/ECluster.Pins:2,Consensus.LogPin:2",
 	"LCluster.RepoGCLocal:2/F", "L/F/ECluster.RepoGCLocal:2", "D/LCluster.Secrets:2", "LPinTracker.Track:7/ECluster.ID:0",
 	"LCluster.Pin:2/L", "D/LIPFSConnector.BlockPut:2/EPinTracker.RecoverAll:1/F",
@@ -291,7 +374,9 @@ func genPsteps(r *common.Rng, eps []endpoint) []pstep {
 		return es
 	}
 	for i := 0; i < n; i++ {
-		switch r.Range(0, 5) {
+		switch r.Range(0, 6) {
+		case 6:
+			steps = append(steps, pstep{kind: 'H', entries: genEntries()})
 		case 0:
 			steps = append(steps, pstep{kind: 'D'})
 		case 1, 2:
@@ -302,7 +387,7 @@ func genPsteps(r *common.Rng, eps []endpoint) []pstep {
 			steps = append(steps, pstep{kind: 'F'})
 		}
 	}
-	if steps[0].kind != 'D' && steps[0].kind != 'L' && r.Range(0, 4) != 0 {
+	if steps[0].kind != 'D' && steps[0].kind != 'L' && steps[0].kind != 'H' && r.Range(0, 4) != 0 {
 		steps = append([]pstep{{kind: 'D'}}, steps...)
 	}
 	return steps
